@@ -22,7 +22,7 @@ use temporal_rs::{
     TemporalError, TimeZone, UtcOffset, ZonedDateTime,
 };
 
-pub const NPARSERS: usize = 14;
+pub const NPARSERS: usize = 15;
 pub const PARSERS: [&str; NPARSERS] = [
     "PlainDate",
     "PlainDateTime",
@@ -38,6 +38,7 @@ pub const PARSERS: [&str; NPARSERS] = [
     "TimeZone.str",
     "ZonedDateTime",
     "RelativeTo",
+    "ZonedDateTime.offset-use",
 ];
 const PARSER_LABELS: [&str; NPARSERS] = [
     "p:PlainDate",
@@ -54,6 +55,7 @@ const PARSER_LABELS: [&str; NPARSERS] = [
     "p:TimeZone.str",
     "p:ZonedDateTime",
     "p:RelativeTo",
+    "p:ZonedDateTime.offset-use",
 ];
 pub const P_DATE: usize = 0;
 pub const P_DATETIME: usize = 1;
@@ -69,6 +71,8 @@ pub const P_TZID: usize = 10;
 pub const P_TZSTR: usize = 11;
 pub const P_ZONED: usize = 12;
 pub const P_RELTO: usize = 13;
+/// ZonedDateTime::from_str_with_provider with offset option `use` (the written offset decides the instant)
+pub const P_ZONED_USE: usize = 14;
 
 /// zones served by the harness provider to ZonedDateTime / RelativeTo (all constant offsets)
 const ZONES: [(&str, i64); 3] = [("UTC", 0), ("Etc/GMT+5", -18000), ("Asia/Kolkata", 19800)];
@@ -100,6 +104,7 @@ pub fn reference(p: usize, s: &str, opts: Opts) -> Ref {
         P_TZSTR => grammar::tz_string(s, opts),
         P_ZONED => grammar::zoned(s, &zone_offset_s, opts),
         P_RELTO => grammar::relative_to(s, &zone_offset_s, opts),
+        P_ZONED_USE => grammar::zoned_use(s, &zone_offset_s, opts),
         _ => unreachable!("parser index"),
     }
 }
@@ -166,6 +171,7 @@ pub fn actual(p: usize, s: &str) -> Result<Value, TemporalError> {
         P_TZID => Value::TimeZone(tz_of(&TimeZone::try_from_identifier_str(s)?)?),
         P_TZSTR => Value::TimeZone(tz_of(&TimeZone::try_from_str(s)?)?),
         P_ZONED => zoned_value(&ZonedDateTime::from_str_with_provider(s, Disambiguation::Compatible, OffsetDisambiguation::Reject, provider())?)?,
+        P_ZONED_USE => zoned_value(&ZonedDateTime::from_str_with_provider(s, Disambiguation::Compatible, OffsetDisambiguation::Use, provider())?)?,
         P_RELTO => match RelativeTo::try_from_str_with_provider(s, provider())? {
             RelativeTo::PlainDate(d) => date_value(&d),
             RelativeTo::ZonedDateTime(z) => zoned_value(&z)?,
@@ -212,7 +218,7 @@ fn is_unicode_alpha_name(s: &str) -> bool {
 }
 
 pub fn is_iso_parser(p: usize) -> bool {
-    matches!(p, P_DATE | P_DATETIME | P_TIME | P_YM | P_MD | P_INSTANT | P_CALENDAR | P_TZSTR | P_ZONED | P_RELTO)
+    matches!(p, P_DATE | P_DATETIME | P_TIME | P_YM | P_MD | P_INSTANT | P_CALENDAR | P_TZSTR | P_ZONED | P_RELTO | P_ZONED_USE)
 }
 
 /// where the root cause of model bit `k` lives: "iso" = the layer shared by all ISO-string parsers
@@ -226,7 +232,7 @@ fn scope_of(k: u32, p: usize) -> &'static str {
     if bit & RX_ZONED_OFFSET_MINUTES != 0 {
         return "zoned"; // the same code in ZonedDateTime::from_str_with_provider and RelativeTo
     }
-    if bit & (RX_TIME_Z | RX_TIME_DUP_CAL) != 0 {
+    if bit & (RX_TIME_Z | RX_TIME_DUP_CAL | RX_LONG_FRACTION) != 0 {
         return "tz-or-calendar-string"; // parse_allowed_timezone_formats / parse_allowed_calendar_formats
     }
     if bit & (RX_MD_FULL_REJECT | RX_RELTO_Z | RX_SUBMIN_TRUNC) != 0 {
@@ -236,6 +242,11 @@ fn scope_of(k: u32, p: usize) -> &'static str {
 }
 
 fn agrees(p: usize, s: &str, rx: u32, a: &Result<Value, TemporalError>) -> bool {
+    // the over-long-fraction defect was repaired in the shared ISO layer (parse_ixdtf); what is left of it is the
+    // time-only shape accepted by the time-zone / calendar string parsers, so the model only explains those
+    if rx & grammar::RX_LONG_FRACTION != 0 && !matches!(p, P_CALENDAR | P_TZSTR) {
+        return false;
+    }
     match (reference(p, s, Opts { rx }).verdict, a) {
         (Verdict::Accept(v), Ok(w)) => values_match(&v, w),
         (Verdict::Reject, Err(e)) => e.kind() == ErrorKind::Range,
@@ -437,7 +448,7 @@ pub fn fuzz_one(bytes: &[u8], known: &[&str]) -> Result<(), String> {
 // ---------------------------------------------------------------------------------------------
 
 pub fn run(ctx: &mut Ctx) {
-    ctx.rule = "strings x parsers: every case is one (parser, string) pair, 14 parsers (FromStr of PlainDate, PlainDateTime, PlainTime, PlainYearMonth, PlainMonthDay, Instant, Duration, UtcOffset, MonthCode, Calendar; TimeZone::try_from_identifier_str / try_from_str; ZonedDateTime::from_str_with_provider and RelativeTo::try_from_str_with_provider over a harness provider serving UTC, Etc/GMT+5, Asia/Kolkata as constant-offset zones, disambiguation compatible / offset reject). sub-check `probe`: systematic cross products (date x time x offset x bracket suffixes; time-only and short year-month / month-day forms; all 4-digit and DD-DD strings for the ambiguity rule; duration part combinations; offsets incl. every +-HH:MM; month codes; calendar and zone identifiers), each string against all 14 parsers. sub-check `gen`: proptest over an entropy tape: (a) grammar-derived valid strings with every production alternative weighted, (b) 1-3 character edits (substitute/insert/delete/swap/duplicate/truncate) and splices of two valid strings, (c) arbitrary short ASCII / UTF-8 strings; the parser is the string's home parser half of the time, any parser otherwise. non-trivial = at least one of the two sides accepts the string. class labels: parser, generator class, productions used by the reference parse, verdict class, error kind.".into();
+    ctx.rule = "strings x parsers: every case is one (parser, string) pair, 15 parsers (ZonedDateTime::from_str_with_provider a second time with offset option `use`, where the written offset decides the instant; FromStr of PlainDate, PlainDateTime, PlainTime, PlainYearMonth, PlainMonthDay, Instant, Duration, UtcOffset, MonthCode, Calendar; TimeZone::try_from_identifier_str / try_from_str; ZonedDateTime::from_str_with_provider and RelativeTo::try_from_str_with_provider over a harness provider serving UTC, Etc/GMT+5, Asia/Kolkata as constant-offset zones, disambiguation compatible / offset reject). sub-check `probe`: systematic cross products (date x time x offset x bracket suffixes; time-only and short year-month / month-day forms; all 4-digit and DD-DD strings for the ambiguity rule; duration part combinations; offsets incl. every +-HH:MM; month codes; calendar and zone identifiers), each string against all 14 parsers. sub-check `gen`: proptest over an entropy tape: (a) grammar-derived valid strings with every production alternative weighted, (b) 1-3 character edits (substitute/insert/delete/swap/duplicate/truncate) and splices of two valid strings, (c) arbitrary short ASCII / UTF-8 strings; the parser is the string's home parser half of the time, any parser otherwise. non-trivial = at least one of the two sides accepts the string. class labels: parser, generator class, productions used by the reference parse, verdict class, error kind.".into();
     ctx.assumptions = vec![
         "oracle: recursive-descent recognisers written from the Temporal grammar (Appendix B), independent of ixdtf; self-tested against accept/reject tables at start".into(),
         "zoned strings: accept/reject always compared; the instant only when neither Z nor a numeric offset is written (resolution is C13)".into(),
